@@ -158,11 +158,15 @@ def lemma(fn, arity, k, path, table):
     return s
 
 
-def write_fn_file(path, pid, d):
+def write_path_file(path, pid, d, k):
+    """one lemma (path k of function d) in its own file, so that the paths of a function are proved in parallel"""
     mod, table = SYMTAB[pid]
+    l = lemma(d["f"], d["arity"], k, d["paths"][k], table)
+    if len(l) > MAX_TERM:
+        return False
     with open(path, "w") as f:
-        f.write("(* generated by symgen.py from the symbolic execution of the compiled cgmath code: function %s, %d path(s) *)\n"
-                % (d["f"], len(d["paths"])))
+        f.write("(* generated by symgen.py from the symbolic execution of the compiled cgmath code: function %s, path %d of %d *)\n"
+                % (d["f"], k, len(d["paths"])))
         f.write("From Coq Require Import Ring Field ZArith QArith List Bool String.\n")
         f.write("From CG Require Import Scalar Exec.ExecQ Exec.Args %s Proofs.Alg Proofs.SymTac.\n" % mod)
         f.write("Import ListNotations.\nOpen Scope string_scope.\n")
@@ -170,13 +174,7 @@ def write_fn_file(path, pid, d):
                 "Variable toNat : F -> nat.\n"
                 "Hypothesis Fth : field_theory (zero O) (one O) (add O) (mul O) (sub O) (opp O) (div O) (inv O) eq.\nAdd Field FF : Fth.\n"
                 "Hypothesis Hasym : LtAsym O.\n")
-        size = 0
-        for k, p in enumerate(d["paths"]):
-            l = lemma(d["f"], d["arity"], k, p, table)
-            size += len(l)
-            if size > MAX_TERM:
-                return False
-            f.write(l)
+        f.write(l)
         f.write("End S.\n")
     return True
 
@@ -198,42 +196,50 @@ def run_sym_tie(pid, symfile, workdir, timeout=240):
     t0 = time.time()
     os.makedirs(workdir, exist_ok=True)
     res = {"tied": [], "paths": 0, "failed": [], "unsupported": [], "per_function_paths": {}}
-    jobs = []
+    jobs = []      # (record, path index, file)
+    recs = []
     for line in open(symfile):
         d = json.loads(line)
-        key = d["f"] if True else None
         if d["unsupported"]:
             res["unsupported"].append((d["f"], d["unsupported"][:120]))
             continue
-        fname = "Sym_%s_%s_%d.v" % (pid, re.sub(r"\W", "_", d["f"]), d["arity"])
-        path = os.path.join(workdir, fname)
+        files = []
         try:
-            ok = write_fn_file(path, pid, d)
+            for k in range(len(d["paths"])):
+                path = os.path.join(workdir, "Sym_%s_%s_%d_p%d.v" % (pid, re.sub(r"\W", "_", d["f"]), d["arity"], k))
+                if not write_path_file(path, pid, d, k):
+                    files = None
+                    break
+                files.append(path)
         except ValueError as e:
             res["unsupported"].append((d["f"], "generator: %s" % e))
             continue
-        if not ok:
+        if files is None:
             res["unsupported"].append((d["f"], "statement too large"))
             continue
-        jobs.append((d, path))
+        recs.append((d, files))
+        for k, path in enumerate(files):
+            jobs.append((d, k, path))
     with concurrent.futures.ThreadPoolExecutor(max_workers=16) as ex:
-        outs = list(ex.map(compile_one, [(p, timeout) for _, p in jobs]))
-    for (d, path), (rc, out, wall) in zip(jobs, outs):
-        if rc == 0:
-            res["tied"].append(d["f"])
+        outs = list(ex.map(compile_one, [(p, timeout) for _, _, p in jobs]))
+    bad = {}
+    for (d, k, path), (rc, out, wall) in zip(jobs, outs):
+        if rc != 0:
+            bad.setdefault((d["f"], d["arity"]), []).append((k, rc, out, path))
+    for d, files in recs:
+        b = bad.get((d["f"], d["arity"]))
+        if not b:
+            if d["f"] not in res["tied"]:
+                res["tied"].append(d["f"])
             res["paths"] += len(d["paths"])
-            res["per_function_paths"][d["f"]] = len(d["paths"])
+            res["per_function_paths"][d["f"]] = res["per_function_paths"].get(d["f"], 0) + len(d["paths"])
         else:
-            m = re.search(r"line (\d+)", out)
-            lem = None
-            if m:
-                # name of the lemma the error falls in
-                ln = int(m.group(1))
-                for i, l in enumerate(open(path).read().split("\n"), 1):
-                    mm = re.match(r"Lemma (\w+)", l)
-                    if mm and i <= ln:
-                        lem = mm.group(1)
-            res["failed"].append((d["f"], {"lemma": lem, "file": path, "paths": len(d["paths"]), "rc": rc, "log": out[-600:]}))
+            k, rc, out, path = b[0]
+            res["failed"].append((d["f"], {"lemma": "sym_%s_%d" % (re.sub(r"\W", "_", d["f"]), k), "file": path, "paths": len(d["paths"]),
+                                          "failed_paths": [x[0] for x in b], "rc": rc, "log": out[-600:]}))
+    # a function that failed at one arity is not tied
+    failed_names = {fn for fn, _ in res["failed"]}
+    res["tied"] = [fn for fn in res["tied"] if fn not in failed_names]
     res["wall"] = round(time.time() - t0, 1)
     return res
 
